@@ -33,6 +33,12 @@ type pathGuard struct {
 // statements that follow an `if c { …terminates }` in the same list — the negation of c. ok is false when the node sits
 // in a loop or under a clause the rule cannot express.
 func pathGuardsTo(w *World, info *types.Info, root ast.Node, node ast.Node) ([]pathGuard, bool) {
+	return pathGuardsToL(w, info, root, node, false)
+}
+
+// pathGuardsToL: as pathGuardsTo; with loops allowed, the conditions collected are those between the node and the root
+// whatever loops lie in between (what must hold in the iteration that reaches the node).
+func pathGuardsToL(w *World, info *types.Info, root ast.Node, node ast.Node, loops bool) ([]pathGuard, bool) {
 	var guards []pathGuard
 	child := node
 	for p := w.parent[node]; p != nil && child != root; child, p = p, w.parent[p] {
@@ -57,7 +63,11 @@ func pathGuardsTo(w *World, info *types.Info, root ast.Node, node ast.Node) ([]p
 				}
 			}
 			guards = append(guards, pathGuard{cond: y.List[0], holds: true, tag: sw.Tag})
-		case *ast.ForStmt, *ast.RangeStmt, *ast.SelectStmt, *ast.TypeSwitchStmt:
+		case *ast.ForStmt, *ast.RangeStmt:
+			if !loops {
+				return nil, false
+			}
+		case *ast.SelectStmt, *ast.TypeSwitchStmt:
 			return nil, false
 		case *ast.BlockStmt:
 			// earlier siblings `if c { …return }` without else: reaching child means !c
@@ -855,4 +865,271 @@ func c06NilMaps(c *Ctx) {
 	if n == 0 {
 		c.undecided("C06.R11", "no store to a written-through map field found")
 	}
+}
+
+// c13ImplicitCharacter: the implicit character attribute ("Name: " prefix) is added exactly when the markers gave no
+// attribute named character. The append of the Attribute literal named by the character constant must lie on a path
+// on which a *presence test* is false; a presence test is a boolean local that starts false and is set true only under
+// `X.Name == <character>`, or slices.ContainsFunc / IndexFunc with a predicate returning that comparison, or the found
+// flag of a lookup by that name.
+func c13ImplicitCharacter(c *Ctx) {
+	w := c.W
+	mp := w.Pkg("markup")
+	info := mp.TypesInfo
+	isCharConst := func(e ast.Expr) bool {
+		tv, ok := info.Types[e]
+		return ok && tv.Value != nil && tv.Value.Kind() == constant.String && constant.StringVal(tv.Value) == "character"
+	}
+	// X.Name == character  (true: the comparison holding means "named character")
+	nameTest := func(cond ast.Expr) (eq bool, ok bool) {
+		neg := false
+		x := unparen(cond)
+		for {
+			if u, isU := x.(*ast.UnaryExpr); isU && u.Op == token.NOT {
+				neg = !neg
+				x = unparen(u.X)
+				continue
+			}
+			break
+		}
+		b, isB := x.(*ast.BinaryExpr)
+		if !isB || (b.Op != token.EQL && b.Op != token.NEQ) {
+			return false, false
+		}
+		isName := func(e ast.Expr) bool {
+			se, ok := unparen(e).(*ast.SelectorExpr)
+			return ok && se.Sel.Name == "Name"
+		}
+		if (isName(b.X) && isCharConst(b.Y)) || (isName(b.Y) && isCharConst(b.X)) {
+			return (b.Op == token.EQL) != neg, true
+		}
+		return false, false
+	}
+	found := 0
+	for _, f := range w.FuncsIn(mp) {
+		if f.Body == nil || f.Lit != nil {
+			continue
+		}
+		var appends []*ast.CallExpr
+		walkNoLit(f.Body, func(q ast.Node) bool {
+			call, ok := q.(*ast.CallExpr)
+			if !ok || !isBuiltin(info, call, "append") || len(call.Args) != 2 {
+				return true
+			}
+			x := w.expander(f)
+			arg := unparen(call.Args[1])
+			for k := 0; k < 3; k++ {
+				id := identOf(arg)
+				if id == nil {
+					break
+				}
+				rhs, idx, _, ok := x.def(info.Uses[id])
+				if !ok || rhs == nil || idx >= 0 {
+					break
+				}
+				arg = unparen(rhs)
+			}
+			isCharLit := func(e ast.Expr) bool {
+				cl, ok := unparen(e).(*ast.CompositeLit)
+				if !ok {
+					return false
+				}
+				if tv, ok := info.Types[cl]; ok && typeStr(tv.Type) == "markup.Attribute" {
+					if nm := litField(cl, "Name"); nm != nil && isCharConst(nm) {
+						return true
+					}
+				}
+				return false
+			}
+			if isCharLit(arg) {
+				appends = append(appends, call)
+				return true
+			}
+			// a variable declared, then assigned the literal (possibly through another local), or completed field by field
+			var namedChar func(v *types.Var, depth int) bool
+			namedChar = func(v *types.Var, depth int) bool {
+				if depth > 3 {
+					return false
+				}
+				for _, a := range w.ent(f).assigns[v] {
+					if as, ok := a.(*ast.AssignStmt); ok && len(as.Lhs) == len(as.Rhs) {
+						for j, l := range as.Lhs {
+							if lid := identOf(l); lid != nil && (info.Uses[lid] == types.Object(v) || info.Defs[lid] == types.Object(v)) {
+								if isCharLit(as.Rhs[j]) {
+									return true
+								}
+								if rid := identOf(as.Rhs[j]); rid != nil {
+									if u, ok := info.Uses[rid].(*types.Var); ok && u != v && namedChar(u, depth+1) {
+										return true
+									}
+								}
+							}
+						}
+					}
+				}
+				hit := false
+				walkNoLit(f.Body, func(z ast.Node) bool {
+					if as, ok := z.(*ast.AssignStmt); ok && len(as.Lhs) == len(as.Rhs) {
+						for j, l := range as.Lhs {
+							if se, ok := unparen(l).(*ast.SelectorExpr); ok && se.Sel.Name == "Name" {
+								if bid := identOf(se.X); bid != nil && info.Uses[bid] == types.Object(v) && isCharConst(as.Rhs[j]) {
+									hit = true
+								}
+							}
+						}
+					}
+					return !hit
+				})
+				return hit
+			}
+			if id := identOf(arg); id != nil {
+				if v, ok := info.Uses[id].(*types.Var); ok && namedChar(v, 0) {
+					appends = append(appends, call)
+				}
+			}
+			return true
+		})
+		for i, ap := range appends {
+			found++
+			c.fn(f)
+			key := f.Name + "/implicit-character-only-when-absent"
+			if i > 0 {
+				key += "#" + itoa(i+1)
+			}
+			guards, ok := pathGuardsTo(w, info, f.Body, ap)
+			if !ok {
+				c.ob("C13.R14", key, w.Pos(ap.Pos()), false, "the implicit character attribute is appended inside a loop or under a clause the rule cannot read")
+				continue
+			}
+			verdict, why := "none", ""
+			for _, g := range guards {
+				if g.tag != nil {
+					continue
+				}
+				// strip negations of the guard
+				neg := false
+				x := unparen(g.cond)
+				for {
+					if u, isU := x.(*ast.UnaryExpr); isU && u.Op == token.NOT {
+						neg = !neg
+						x = unparen(u.X)
+						continue
+					}
+					break
+				}
+				present := g.holds != neg // the truth of x on this path
+				kind := ""
+				switch y := x.(type) {
+				case *ast.Ident:
+					v, isVar := info.Uses[y].(*types.Var)
+					if !isVar || typeStr(v.Type()) != "bool" {
+						break
+					}
+					// a flag: starts false, set true only under the name test
+					startsFalse, setOK, nset := false, true, 0
+					for _, a := range w.ent(f).assigns[v] {
+						switch d := a.(type) {
+						case *ast.AssignStmt:
+							for j, l := range d.Lhs {
+								if id := identOf(l); id == nil || (info.Defs[id] != types.Object(v) && info.Uses[id] != types.Object(v)) {
+									continue
+								}
+								if len(d.Rhs) != len(d.Lhs) {
+									// the found flag of a lookup by the character name
+									if call, ok := unparen(d.Rhs[0]).(*ast.CallExpr); ok && j == 1 && len(call.Args) >= 1 && isCharConst(call.Args[len(call.Args)-1]) {
+										startsFalse, nset = true, nset+1
+										continue
+									}
+									setOK = false
+									continue
+								}
+								tv := info.Types[d.Rhs[j]]
+								switch {
+								case tv.Value != nil && tv.Value.Kind() == constant.Bool && !constant.BoolVal(tv.Value) && d.Tok == token.DEFINE:
+									startsFalse = true
+								case tv.Value != nil && tv.Value.Kind() == constant.Bool && constant.BoolVal(tv.Value):
+									nset++
+									gs, ok := pathGuardsToL(w, info, f.Body, d, true)
+									under := false
+									for _, sg := range gs {
+										if sg.tag == nil {
+											if eq, is := nameTest(sg.cond); is && eq == sg.holds {
+												under = true
+											}
+										}
+									}
+									if !ok || !under {
+										setOK = false
+									}
+								default:
+									if call, ok := unparen(d.Rhs[j]).(*ast.CallExpr); ok && containsNamePredicate(info, call, nameTest) {
+										startsFalse, nset = true, nset+1
+									} else {
+										setOK = false
+									}
+								}
+							}
+						case *ast.ValueSpec:
+							if len(d.Values) == 0 {
+								startsFalse = true
+							}
+						}
+					}
+					if startsFalse && setOK && nset > 0 {
+						kind = "flag " + y.Name
+					} else if typeStr(v.Type()) == "bool" && strings.Contains(strings.ToLower(y.Name), "character") {
+						kind = "broken"
+						why = "the flag " + y.Name + " is not `false, then true only under X.Name == character`" + map[bool]string{true: " (it is never set)", false: ""}[nset == 0]
+					}
+				case *ast.CallExpr:
+					if containsNamePredicate(info, y, nameTest) {
+						kind = "call " + exprStrShort(y)
+					}
+				}
+				switch {
+				case kind == "broken":
+					verdict = "broken"
+				case kind != "" && !present:
+					verdict = "ok"
+					why = "appended only where the presence test (" + kind + ") is false"
+				case kind != "" && present:
+					verdict = "inverted"
+					why = "the implicit character attribute is appended where the presence test (" + kind + ") holds: a line with an explicit [character] marker gets a second character attribute, a plain `Name: ` line gets none"
+				}
+				if verdict != "none" {
+					break
+				}
+			}
+			switch verdict {
+			case "ok":
+				c.ob("C13.R14", key, w.Pos(ap.Pos()), true, why)
+			case "none":
+				c.ob("C13.R14", key, w.Pos(ap.Pos()), false, "the implicit character attribute is appended without a test that no attribute named character is present")
+			default:
+				c.ob("C13.R14", key, w.Pos(ap.Pos()), false, why)
+			}
+		}
+	}
+	if found == 0 {
+		c.undecided("C13.R14", "no append of an attribute named by the character constant found")
+	}
+}
+
+// containsNamePredicate: the call is slices.ContainsFunc(xs, func(a T) bool { return a.Name == character }) (or a module
+// function / IndexFunc comparison wrapped around such a predicate).
+func containsNamePredicate(info *types.Info, call *ast.CallExpr, nameTest func(ast.Expr) (bool, bool)) bool {
+	callee := calleeOf(info, call)
+	if callee == nil || callee.Pkg() == nil || callee.Pkg().Path() != "slices" || callee.Name() != "ContainsFunc" || len(call.Args) != 2 {
+		return false
+	}
+	lit, ok := unparen(call.Args[1]).(*ast.FuncLit)
+	if !ok || len(lit.Body.List) != 1 {
+		return false
+	}
+	ret, ok := lit.Body.List[0].(*ast.ReturnStmt)
+	if !ok || len(ret.Results) != 1 {
+		return false
+	}
+	eq, is := nameTest(ret.Results[0])
+	return is && eq
 }
